@@ -57,6 +57,12 @@ theorem getElem?_of_lt {α} {l : List α} {i : Nat} (h : i < l.length) : ∃ c, 
 theorem DataFrame.setChan (e : Ep) (i : Nat) (c : Chan) : DataFrame e { e with chans := e.chans.set i c } :=
   ⟨e.chans.set i c, e.dataChannels, e.dcQueue, e.tx, _, _, _, _, rfl, by simp⟩
 
+/-- No application handler is armed: `react` does nothing. -/
+theorem wp_react_nil {A} {k i : Nat} {Q : Unit → St → Prop} {e : Ep} {l : List Out} (hn : e.reactions = []) :
+    wp A (react k i) Q (e, l) ↔ Q () (e, l) := by
+  unfold react
+  simp [hn]
+
 /-- `_setReadyState`: only the channel object changes. -/
 theorem wp_setReady {A} {i st : Nat} {Q : Unit → St → Prop} {e : Ep} {l : List Out} (h : WF e) (hi : i < e.chans.length)
     (hq : ∀ cs l', WF { e with chans := cs } → cs.length = e.chans.length → Q () ({ e with chans := cs }, l')) :
@@ -70,25 +76,38 @@ theorem wp_setReady {A} {i st : Nat} {Q : Unit → St → Prop} {e : Ep} {l : Li
     have hw := h.setChan hc (c' := { c with ready := st }) ⟨rfl, rfl, rfl⟩
     split
     · split
-      · simp only [wp_emit]; exact hq _ _ hw (by simp)
+      · simp only [wp_bind, wp_emit, wp_react_nil hw.nr]; exact hq _ _ hw (by simp)
       · split
-        · simp only [wp_emit]; exact hq _ _ hw (by simp)
+        · simp only [wp_bind, wp_emit, wp_react_nil hw.nr]; exact hq _ _ hw (by simp)
         · simp only [wp_pure]; exact hq _ _ hw (by simp)
     · simp only [wp_pure]; exact hq _ _ hw (by simp)
   · simp only [wp_pure]; exact hself l h rfl
 
-/-- `_addBufferedAmount`: only the channel object changes. -/
+/-- `_addBufferedAmount` proper (returns whether `bufferedamountlow` fired): only the channel object changes. -/
+theorem wp_addBufferedCore {A} {i : Nat} {amount : Int} {Q : Bool → St → Prop} {e : Ep} {l : List Out} (h : WF e)
+    (hi : i < e.chans.length)
+    (hq : ∀ b cs l', WF { e with chans := cs } → cs.length = e.chans.length → Q b ({ e with chans := cs }, l')) :
+    wp A (addBufferedCore i amount) Q (e, l) := by
+  obtain ⟨c, hc⟩ := getElem?_of_lt hi
+  unfold addBufferedCore
+  simp only [wp_bind, wp_chanGet hc, wp_chanSet]
+  have hw := h.setChan hc (c' := { c with buffered := c.buffered + amount }) ⟨rfl, rfl, rfl⟩
+  split
+  · simp only [wp_bind, wp_emit, wp_pure]; exact hq _ _ _ hw (by simp)
+  · simp only [wp_pure]; exact hq _ _ _ hw (by simp)
+
+/-- `_addBufferedAmount` with the (unarmed) `bufferedamountlow` handler. -/
 theorem wp_addBuffered {A} {i : Nat} {amount : Int} {Q : Unit → St → Prop} {e : Ep} {l : List Out} (h : WF e)
     (hi : i < e.chans.length)
     (hq : ∀ cs l', WF { e with chans := cs } → cs.length = e.chans.length → Q () ({ e with chans := cs }, l')) :
     wp A (addBuffered i amount) Q (e, l) := by
-  obtain ⟨c, hc⟩ := getElem?_of_lt hi
   unfold addBuffered
-  simp only [wp_bind, wp_chanGet hc, wp_chanSet]
-  have hw := h.setChan hc (c' := { c with buffered := c.buffered + amount }) ⟨rfl, rfl, rfl⟩
+  simp only [wp_bind]
+  refine wp_addBufferedCore h hi ?_
+  intro b cs l' hw hlen
   split
-  · simp only [wp_emit]; exact hq _ _ hw (by simp)
-  · simp only [wp_pure]; exact hq _ _ hw (by simp)
+  · rw [wp_react_nil hw.nr]; exact hq _ _ hw hlen
+  · simp only [wp_pure]; exact hq _ _ hw hlen
 
 /-- `_transmit()`: only the send side changes. -/
 theorem wp_transmit {A} {Q : Unit → St → Prop} {e : Ep} {l : List Out} (h : WF e)
@@ -195,14 +214,14 @@ theorem wp_transmitReconfig {A} {Q : Unit → St → Prop} {e : Ep} {l : List Ou
                                tsn_minus_one e.tx.localTsn, streams)
                              reconfigRequestSeq := tsn_plus_one e.reconfigRequestSeq } :=
         ⟨h.net, ⟨h.ch.dcIdx, h.ch.dcKeys, h.ch.qIdx, h.ch.qId, h.ch.qRel, h.ch.qPpid, h.ch.sid,
-          fun s hs => h.ch.rcq s (List.mem_filter.mp hs).1⟩, h.tx, h.rx, tsn_plus_one_range _, h.rcResp, h.sack⟩
+          fun s hs => h.ch.rcq s (List.mem_filter.mp hs).1⟩, h.tx, h.rx, tsn_plus_one_range _, h.rcResp, h.sack, h.nr⟩
       refine wp_sendChunk hw1 (reconfigChunk_inRange (by decide) ?_) ?_
       · simp only [RcParam.bytes, List.length_append, length_u32be, length_u16sBytes]
         omega
       · intro d
         refine wp_rcStart ?_
         intro l'
-        exact hq _ _ ⟨hw1.net, hw1.ch, hw1.tx, hw1.rx, hw1.rcReq, hw1.rcResp, hw1.sack⟩
+        exact hq _ _ ⟨hw1.net, hw1.ch, hw1.tx, hw1.rx, hw1.rcReq, hw1.rcResp, hw1.sack, hw1.nr⟩
           ⟨_, _, _, _, _, _, _, _, rfl, Nat.le_refl _⟩
   · simp only [wp_pure]
     exact hq e l h (DataFrame.refl _)
@@ -214,7 +233,7 @@ theorem ChansOk.subQ {chans dcs q q' rcq} (h : ChansOk chans dcs q rcq) (hsub : 
 
 theorem WF.subQ {e : Ep} (h : WF e) {q : List (Nat × Nat × Bytes)} (hsub : ∀ x ∈ q, x ∈ e.dcQueue) :
     WF { e with dcQueue := q } :=
-  ⟨h.net, h.ch.subQ hsub, h.tx, h.rx, h.rcReq, h.rcResp, h.sack⟩
+  ⟨h.net, h.ch.subQ hsub, h.tx, h.rx, h.rcReq, h.rcResp, h.sack, h.nr⟩
 
 /-- `_data_channel_flush` loop: channel objects, queue and send side change; nothing else. -/
 theorem wp_flushLoop {A} (fuel : Nat) {Q : Unit → St → Prop} {e : Ep} {l : List Out} (h : WF e)
